@@ -7,5 +7,6 @@ CONSTANTS
   FirstCap = 0
   Roots = {1, 2}
   Dev = "none"
+  Tolerant = FALSE
 INVARIANTS LTypeOK ReturnsByHard BestIsMax MajorityRule ErrorIffNothing InvalidNeverReturned NotOverdue LookupOwnTime
 PROPERTIES LTermination
